@@ -207,7 +207,7 @@ func genC03(t *rapid.T) c03Case {
 		Seeds:     rapid.IntRange(1, 6).Draw(t, "seeds"),
 		Assets:    rapid.IntRange(0, 3).Draw(t, "assets"),
 		Links:     []int{0, 0, 3, 12}[rapid.IntRange(0, 3).Draw(t, "links")],
-		Moment:    []string{"arrival", "midbody", "complete", "idle", "hook", "hook", "paused", "paused"}[rapid.IntRange(0, 7).Draw(t, "moment")],
+		Moment:    []string{"arrival", "midbody", "complete", "idle", "hook", "hook", "paused", "paused", "startup"}[rapid.IntRange(0, 8).Draw(t, "moment")],
 	}
 	total := c.Seeds * (1 + c.Assets)
 	c.K = rapid.IntRange(1, max(1, min(total, 6))).Draw(t, "k")
@@ -346,6 +346,15 @@ func runC03(t veriflib.TB, c c03Case) (res c03Result) {
 			res.Skipped = "the stall point was never reached"
 			sendTerm()
 		}
+	case "startup":
+		// the first four stages are up, the local queue (opened next, about two seconds) and the finisher are not:
+		// startPipeline() is still running, the signal handler is registered but nobody is waiting on it yet
+		if waitFor(60*time.Second, func() bool {
+			return ch.exited() || strings.Contains(ch.output(), "msg=started component=postprocessor")
+		}) && !ch.exited() {
+			res.InFlight = true
+		}
+		sendTerm()
 	case "idle":
 		waitFor(60*time.Second, func() bool { return len(o.Log()) >= total || ch.exited() })
 		for last, since := -1, time.Now(); time.Since(since) < 1500*time.Millisecond && !ch.exited(); time.Sleep(100 * time.Millisecond) {
@@ -439,6 +448,9 @@ func runC03(t veriflib.TB, c c03Case) (res c03Result) {
 	if len(scans) == 0 {
 		res.Viol = "after the stop the job has no WARC file at all"
 	}
+	if os.Getenv("VERIF_C03_DEBUG") != "" {
+		res.Output = tail(out, 6000)
+	}
 	return res
 }
 
@@ -505,7 +517,13 @@ func TestVerif_C03_Proc(t *testing.T) {
 		case 2:
 			d.Moment, d.K, d.Point, d.Links = "paused", 1, "postprocessor.outlinks", 12
 		default:
-			d.Moment, d.K, d.After = "arrival", 2, "drop"
+			if (i/6)%2 == 1 {
+				// the stop request arrives while the crawler is still starting up (first poll of the local queue): the
+				// handler is registered, nobody is waiting for the signal yet
+				d.Moment = "startup"
+			} else {
+				d.Moment, d.K, d.After = "arrival", 2, "drop"
+			}
 		}
 		propC03(t, d)
 	}
